@@ -22,7 +22,7 @@ RULE = (
     "(3) two blocks with the same law must not share one draw. Non-trivial: expected size distribution has >= 4 sizes with mass >= 2%; distinct by case."
 )
 ASSUMPTIONS = ["generations whose draw raises (C11 known finding) are skipped; a GOF case with draw failures is not decided statistically", "statistical false-alarm bound < 1e-9 per case"]
-FLOORS = {"quick": {"large_mass_generations": 8, "quantile_decided": 700, "gof_cases_decided": 6, "molecules": 3000, "distinct_nontrivial": 10}, "thorough": {"quantile_decided": 20000, "gof_cases_decided": 40}}
+FLOORS = {"quick": {"large_mass_generations": 8, "quantile_decided": 700, "gof_cases_decided": 4, "molecules": 3000, "distinct_nontrivial": 10}, "thorough": {"quantile_decided": 20000, "gof_cases_decided": 25}}
 
 UNITS = ["CC", "CCO", "CC(C)C(=O)OC", "Cc1ccccc1", "C(F)F", "CS", "CC(C)(C)C", "C1CCCCC1"]
 # parameters in multiples of the unit mass m (so that blocks have a handful of units whatever the fragment)
